@@ -605,14 +605,7 @@ class SemanticErrorChecker:
                 # check for structs which has structs as attribute
                 if isinstance(attribute, Struct):
                     attribute.name = correct_attribute_type
-                    struct_def = self.structs[correct_attribute_type]
-                    struct_correct = True
-                    for identifier in attribute.attributes:
-                        if not self.check_for_wrong_attribute_type_in_struct(
-                            attribute, identifier, struct_def
-                        ):
-                            struct_correct = False
-                    return struct_correct
+                    return self.check_instantiated_struct_attributes(attribute)
                 error_msg = (
                     f"Attribute '{identifier}' has the wrong type in the "
                     f"instantiated Struct '{struct_instance.name}', expected "
